@@ -1,10 +1,129 @@
 import GormModel.Drv.Util
+import GormModel.Model.SchemaCache
+import GormModel.Model.WhereSwap
 open Lean
 namespace Gorm.Drv
+open Gorm.SchemaCache
+namespace HC07
 
-/-- line-protocol handler for C07 (ops are JSON arrays `[opname, args…]`); returns `none` for ops it does not own -/
+def parseRel (j : Json) : Option Rel := do
+  let p ← jArr? j
+  some { target := ← jNat? (arg p 0), has := ← jBool? (arg p 1), bad := ← jBool? (arg p 2) }
+
+def parseCfg (j : Json) : Option Cfg := do
+  (← jArr? j).toList.mapM (fun tj => do (← jArr? tj).toList.mapM parseRel)
+
+def parseNatList (j : Json) : Option (List Nat) := do (← jArr? j).toList.mapM jNat?
+
+def scStatus (s : State) (t : Nat) : String :=
+  if doneT s t then "D" else
+  match (s.thr t).cur with
+  | none => "S"
+  | some f =>
+    match f.pc with
+    | .tableName => s!"P{f.ty}"
+    | .wait o => if (s.objs o).closed then "R" else s!"B{f.ty}"
+    | _ => "R"
+
+/-- canonical object numbering: first appearance in (top-level returns of thread 0, 1, …; then cache by type) -/
+def canonObjs (s : State) (g ntypes : Nat) : List Nat :=
+  let tops := s.rets.reverse.filter (fun r => !r.nested)
+  let byThread := (List.range g).flatMap (fun t => (tops.filter (fun r => r.tid == t)).map (·.obj))
+  let cached := (List.range ntypes).filterMap s.cache
+  (byThread ++ cached).foldl (fun acc o => if acc.contains o then acc else acc ++ [o]) []
+
+def canonIdx (l : List Nat) (o : Nat) : Nat := (l.findIdx? (· == o)).getD 999999
+
+def insertSorted (x : Nat × Nat) : List (Nat × Nat) → List (Nat × Nat)
+  | [] => [x]
+  | y :: ys => if x == y then y :: ys else if x.1 < y.1 || (x.1 == y.1 && x.2 ≤ y.2) then x :: y :: ys else y :: insertSorted x ys
+
+/-- macro-step execution of a forced schedule: returns (effective releases with statuses after each, state, det) -/
+def scExec (c : Cfg) (g : Nat) (sched : List Nat) (s0 : State) : List (Nat × List String) × State × Bool :=
+  let fuel := 10000
+  let doRelease := fun (acc : List (Nat × List String) × State × Bool) (t : Nat) =>
+    let (tr, s, det) := acc
+    if t < g && parkedT s t then
+      let (s1, nd1) := release c g fuel s t
+      let (s2, nd) := quiesce c g 1000 s1 nd1
+      (tr ++ [(t, (List.range g).map (scStatus s2))], s2, det && !nd)
+    else acc
+  let acc1 := sched.foldl doRelease ([], s0, true)
+  -- drain: release the lowest parked thread until nobody is parked
+  let rec drain : Nat → (List (Nat × List String) × State × Bool) → (List (Nat × List String) × State × Bool)
+    | 0, acc => acc
+    | n + 1, acc =>
+      match (List.range g).find? (fun t => parkedT acc.2.1 t) with
+      | none => acc
+      | some t => drain n (doRelease acc t)
+  drain 2000 acc1
+
+/-- which model branches fired (for the evidence histograms) -/
+def scBranches (s : State) : List String :=
+  let n1 := (s.rets.filter (·.nested)).length
+  let ne := (s.rets.filter (·.err)).length
+  let gp := (s.gets.filter (fun g => !g.closedAtGet)).length
+  let gc := (s.gets.filter (·.closedAtGet)).length
+  (if n1 > 0 then ["nested-parse"] else []) ++ (if ne > 0 then ["error-return"] else []) ++
+  (if gp > 0 then ["getOrParse-hit-unclosed"] else []) ++ (if gc > 0 then ["getOrParse-hit-closed"] else [])
+
+def parseEK (j : Json) : Option WhereSwap.EK := do
+  match ← jStr? j with
+  | "or1" => some .singleOr
+  | "other" => some .other
+  | _ => none
+
+def parseItem (j : Json) : Option WhereSwap.Item :=
+  match jStr? j with
+  | some "or1" => some (.single .singleOr)
+  | some "other" => some (.single .other)
+  | some _ => none
+  | none => do
+    let inner ← (← jArr? j).toList.mapM parseEK
+    some (.andGroup inner)
+
+end HC07
+
+open HC07 in
+/-- ["sc.sched", cfg, progs, sched] ; ["where.swap", [items]] (item = "or1" | "other" | [inner kinds] for an And group) -/
 def handleC07 (op : String) (args : Array Json) : Option Json := do
   match op with
+  | "sc.sched" =>
+    let c ← parseCfg (arg args 1)
+    let progs ← (← jArr? (arg args 2)).toList.mapM parseNatList
+    let sched ← parseNatList (arg args 3)
+    let g := progs.length
+    let (tr, s, det) := scExec c g sched (init progs)
+    let co := canonObjs s g c.length
+    let tops := s.rets.reverse.filter (fun r => !r.nested)
+    let retsJ := (List.range g).map (fun t =>
+      Json.arr ((tops.filter (fun r => r.tid == t)).map (fun r =>
+        Json.arr #[natJ r.ty, natJ (canonIdx co r.obj), Json.bool r.err, natJ r.nrelAtRet, Json.bool r.closedAtRet])).toArray)
+    let objsJ := co.map (fun o =>
+      let ob := s.objs o
+      let bs := ob.backs.foldl (fun acc b => insertSorted b acc) []
+      Json.arr #[natJ ob.ty, natJ ob.nrel, Json.arr (bs.map (fun b => Json.arr #[natJ b.1, natJ b.2])).toArray,
+                 Json.bool ob.err, Json.bool ob.closed])
+    let cacheJ := (List.range c.length).map (fun ty =>
+      match s.cache ty with
+      | some o => Json.num (JsonNumber.fromInt (Int.ofNat (canonIdx co o)))
+      | none => Json.num (JsonNumber.fromInt (-1)))
+    let allDone := (List.range g).all (fun t => doneT s t)
+    some (Json.mkObj [
+      ("trace", Json.arr (tr.map (fun (t, st) => Json.arr #[natJ t, strListJ st])).toArray),
+      ("det", Json.bool det),
+      ("done", Json.bool allDone),
+      ("rets", Json.arr retsJ.toArray),
+      ("objs", Json.arr objsJ.toArray),
+      ("cache", Json.arr cacheJ.toArray),
+      ("branches", strListJ (scBranches s)),
+      ("nobj", natJ s.nobj)])
+  | "where.swap" =>
+    let items ← (← jArr? (arg args 1)).toList.mapM parseItem
+    let (inner, ks) := WhereSwap.target items
+    let idxs := List.range ks.length
+    let perm := WhereSwap.after (fun i => ks.getD i .other) idxs
+    some (Json.mkObj [("inner", Json.bool inner), ("perm", natListJ perm), ("writes", natListJ (WhereSwap.writes ks))])
   | _ => none
 
 end Gorm.Drv
